@@ -246,5 +246,5 @@ def test_case(case, note):
 def subchecks(tier):
     q = tier == "quick"
     return [Sub("curvature", case_strategy(tier), test_case,
-                40 if q else 480, generic=generic_cases(),
+                40 if q else 2000, generic=generic_cases(),
                 shards=8 if q else 16, max_rounds=2, shrink_quick=False, pregenerate=True)]
